@@ -178,17 +178,9 @@ def run(rep, tier):
         ok = False
         nonepaths = 0
         for (ev, out) in exits(PathEnum(rs).paths()):
-            # paths on which the entry pop yielded None: arm None of a match on it, or a failed `if let Some`
-            none = False
-            for e in ev:
-                if e.kind == "arm":
-                    vs = hirq.pat_variants(e.node["arms"][e.extra]["pat"])
-                    if any(v.endswith("Option::None") for v in vs) and any(
-                            kind(x) == "MethodCall" and x["m"] == "pop" and vec_field(x["recv"]) == snap for x in walk(e.node["scrut"])):
-                        none = True
-                if e.kind == "cond" and kind(peel(e.node)) == "LetExpr" and e.extra is False and any(
-                        kind(x) == "MethodCall" and x["m"] == "pop" and vec_field(x["recv"]) == snap for x in walk(e.node)):
-                    none = True
+            # paths on which the entry pop yielded None (match arm, failed `if let Some`, `let .. else`)
+            none = hirq.option_outcome(ev, lambda x: kind(x) == "MethodCall" and x["m"] == "pop"
+                                       and vec_field(x["recv"]) == snap) == "none"
             if not none:
                 continue
             nonepaths += 1
@@ -292,16 +284,8 @@ def run(rep, tier):
                                  % hirq.expr_text(x)[:50])
         r5.instance("clear:adjust", where(cs["body"]))
         for (ev, out) in exits(PathEnum(cs).paths()):
-            consumed = False
-            for e in ev:
-                if e.kind == "cond" and kind(peel(e.node)) == "LetExpr" and e.extra is True and any(
-                        kind(x) == "MethodCall" and x["m"] == "pop" and vec_field(x["recv"]) == snap for x in walk(e.node)):
-                    consumed = True
-                if e.kind == "arm":
-                    vs = hirq.pat_variants(e.node["arms"][e.extra]["pat"])
-                    if any(v.endswith("Option::Some") for v in vs) and any(
-                            kind(x) == "MethodCall" and x["m"] == "pop" and vec_field(x["recv"]) == snap for x in walk(e.node["scrut"])):
-                        consumed = True
+            consumed = hirq.option_outcome(ev, lambda x: kind(x) == "MethodCall" and x["m"] == "pop"
+                                           and vec_field(x["recv"]) == snap) == "some"
             if not consumed:
                 continue
             def adjusts(e):
@@ -319,14 +303,8 @@ def run(rep, tier):
             # popped vector the elements an older snapshot still needs (its own originals, the deepest ones) are
             # the LAST ones.  Where a parent snapshot exists, the merge must therefore remove from the front of the
             # segment; an operation that can only cut a suffix (truncate / pop / clear) keeps the wrong elements.
-            has_parent = any(
-                (e.kind == "cond" and kind(peel(e.node)) == "LetExpr" and e.extra is True and any(
-                    kind(x) == "MethodCall" and x["m"] in ("last_mut", "last") and vec_field(x["recv"]) == snap
-                    for x in walk(e.node)))
-                or (e.kind == "arm" and any(v.endswith("Option::Some") for v in hirq.pat_variants(e.node["arms"][e.extra]["pat"]))
-                    and any(kind(x) == "MethodCall" and x["m"] in ("last_mut", "last") and vec_field(x["recv"]) == snap
-                            for x in walk(e.node["scrut"])))
-                for e in ev)
+            has_parent = hirq.option_outcome(ev, lambda x: kind(x) == "MethodCall" and x["m"] in ("last_mut", "last")
+                                             and vec_field(x["recv"]) == snap) == "some"
             appends = pop is not None and any(kind(x) == "MethodCall" and x["m"] == "push" and vec_field(x["recv"]) in popped_fields
                                               for x in walk(pop["body"]))
             if has_parent and appends:
